@@ -251,9 +251,14 @@ pub struct Engine<'a> {
     /// C16 image mode: when set, every quiescent point (`check_committed`) hands the directory and
     /// the oracle's committed map to `image::snapshot` (behaviour is unchanged when `None`)
     pub image_sink: Option<crate::image::Snapshots>,
+    /// take an image snapshot only at every n-th quiescent point (0 / 1 = every one)
+    pub snapshot_every: usize,
+    quiescent_points: usize,
     /// C16 image mode: mostly 600..1300-byte inline values, so that leaves hold 3-4 keys and a few
     /// thousand keys need several bottom-level branch nodes (default false: unchanged generator)
     pub fat_values: bool,
+    /// keys the next session probe must query (read + prove) in addition to its random ones
+    pub probe_extra: Vec<Key>,
 }
 
 fn chance_list<T: Clone>(rng: &mut Rng, v: &[T]) -> T {
@@ -290,7 +295,10 @@ impl<'a> Engine<'a> {
             force_witness: false,
             events: BTreeMap::new(),
             image_sink: None,
-            fat_values: false,
+            snapshot_every: 1,
+            quiescent_points: 0,
+            fat_values: FAT.load(std::sync::atomic::Ordering::Relaxed),
+            probe_extra: vec![],
         };
         e.pool = gen_keyset(&mut e.rng, 40);
         e.open_db();
@@ -531,8 +539,11 @@ impl<'a> Engine<'a> {
                 hex(&root), hex(&expect_root), view.len()
             ));
         }
-        for _ in 0..nq {
-            let k = if !view.is_empty() && self.rng.chance(2, 3) {
+        let extra: Vec<Key> = std::mem::take(&mut self.probe_extra);
+        for qi in 0..nq + extra.len() {
+            let k = if qi >= nq {
+                extra[qi - nq]
+            } else if !view.is_empty() && self.rng.chance(2, 3) {
                 let base = *self.rng.pick(&view.keys().cloned().collect::<Vec<_>>());
                 match self.rng.below(3) {
                     0 => base,
@@ -567,7 +578,7 @@ impl<'a> Engine<'a> {
                 Err(_) => self.out.fail(format!("C01 session read PANIC key {}", hex(&k))),
             }
             // prove
-            if self.rng.chance(2, 3) {
+            if qi >= nq || self.rng.chance(2, 3) {
                 match catch_unwind(AssertUnwindSafe(|| s.prove(k))) {
                     Ok(Ok(p)) => {
                         self.check_proof(&p, &k, root, view);
@@ -838,7 +849,8 @@ impl<'a> Engine<'a> {
             let k = if self.rng.chance(3, 4) { *self.rng.pick(&keys) } else { self.gen_key() };
             self.dread(&k, why);
         }
-        if self.image_sink.is_some() {
+        self.quiescent_points += 1;
+        if self.image_sink.is_some() && (self.snapshot_every <= 1 || self.quiescent_points % self.snapshot_every == 0) {
             let occ = self.db.as_ref().map(|d| d.hash_table_utilization().occupied);
             if let Some(snaps) = self.image_sink.as_mut() {
                 snaps.snapshot(&self.dir, &self.committed, why, occ);
@@ -1169,6 +1181,86 @@ impl<'a> Engine<'a> {
         }
         for _ in 0..self.rng.range(1, depth) {
             self.op_rollback_n(1);
+        }
+    }
+
+    /// A whole cluster of committed keys under one 12-bit prefix (its depth-2 merkle page is stored once the cluster has
+    /// >= 20 leaves) is deleted by overlay A, partly re-inserted by overlay B on A (the page is re-created — elided if fewer
+    /// than 20 leaves come back), and a session on [B, A] reads and proves keys under that page: a seek must not pick up
+    /// A's emptied copy of the page, nor the stale page on disk.  Afterwards the chain is committed in order or dropped.
+    fn op_overlay_cluster_flip(&mut self) {
+        // the largest group of committed keys sharing their first 12 bits
+        let mut groups: BTreeMap<(u8, u8), Vec<Key>> = BTreeMap::new();
+        for k in self.committed.keys() {
+            groups.entry((k[0], k[1] & 0xF0)).or_default().push(*k);
+        }
+        let mut cluster = groups.into_values().max_by_key(|g| g.len()).unwrap_or_default();
+        if cluster.len() < 20 {
+            // grow (or found) the cluster by a direct commit so that its depth-2 page is stored
+            let (b0, b1) = match cluster.first() {
+                Some(k) => (k[0], k[1] & 0xF0),
+                None => {
+                    let k = self.rng.bytes32();
+                    (k[0], k[1] & 0xF0)
+                }
+            };
+            let want = self.rng.range(20, 27) - cluster.len();
+            let mut ws: Vec<(Key, Option<Val>)> = vec![];
+            for _ in 0..want {
+                let mut k = self.rng.bytes32();
+                k[0] = b0;
+                k[1] = b1 | (k[1] & 0x0F);
+                let v = self.gen_val();
+                ws.push((k, Some(v)));
+            }
+            ws.sort_by(|x, y| x.0.cmp(&y.0));
+            ws.dedup_by(|x, y| x.0 == y.0);
+            let Some(fid) = self.session_to_fin_with(&[], 0, 0, Some(ws.clone())) else { return };
+            self.commit_fin(fid, false);
+            if !self.alive() {
+                return;
+            }
+            cluster = self.committed.keys().filter(|k| k[0] == b0 && (k[1] & 0xF0) == b1).cloned().collect();
+            if cluster.len() < 8 {
+                return;
+            }
+        }
+        let del: Vec<(Key, Option<Val>)> = cluster.iter().map(|k| (*k, None)).collect();
+        let Some(fa) = self.session_to_fin_with(&[], 1, 0, Some(del)) else { return };
+        let a = self.fin_to_overlay(fa, &[]);
+        let back = self.rng.range(1, cluster.len().min(26));
+        let mut ws: Vec<(Key, Option<Val>)> = vec![];
+        for k in cluster.iter().take(back) {
+            let v = self.gen_val();
+            ws.push((*k, Some(v)));
+        }
+        // and a few fresh keys under the same 12-bit prefix
+        for _ in 0..self.rng.below(3) {
+            let mut k = self.rng.bytes32();
+            k[0] = cluster[0][0];
+            k[1] = (cluster[0][1] & 0xF0) | (k[1] & 0x0F);
+            let v = self.gen_val();
+            ws.push((k, Some(v)));
+        }
+        ws.sort_by(|x, y| x.0.cmp(&y.0));
+        ws.dedup_by(|x, y| x.0 == y.0);
+        let Some(fb) = self.session_to_fin_with(&[a], 1, 0, Some(ws)) else { return };
+        let b = self.fin_to_overlay(fb, &[a]);
+        self.ev("overlay_cluster_flip");
+        // the session under test: reads + proofs of re-inserted, still-deleted and absent keys under the page
+        let mut probes: Vec<Key> = cluster.iter().step_by((cluster.len() / 6).max(1)).cloned().collect();
+        let mut absent = cluster[cluster.len() / 2];
+        absent[31] ^= 0x5a;
+        probes.push(absent);
+        self.probe_extra = probes;
+        if let Some(fc) = self.session_to_fin_with(&[b, a], 1, 2, None) {
+            let _ = fc;
+        }
+        if self.rng.chance(1, 2) {
+            self.overlay_commit_inner(a, false);
+            if self.alive() {
+                self.overlay_commit_inner(b, false);
+            }
         }
     }
 
@@ -1506,6 +1598,7 @@ impl<'a> Engine<'a> {
             "overlay_new" => self.op_overlay_new(),
             "overlay_commit" => self.op_overlay_commit(),
             "ov_chain_rb" => self.op_overlay_chain_rollback(),
+            "ov_cluster_flip" => self.op_overlay_cluster_flip(),
             "overlay_drop" => self.op_overlay_drop(),
             "bad_chain" => self.op_bad_chain(),
             "stale" => self.op_stale(),
@@ -1539,6 +1632,7 @@ pub const W_GENERAL: &[(usize, &str)] = &[
     (4, "overlay_commit"),
     (1, "overlay_drop"),
     (1, "ov_chain_rb"),
+    (1, "ov_cluster_flip"),
     (1, "bad_chain"),
     (2, "stale"),
     (1, "busy"),
@@ -1547,11 +1641,14 @@ pub const W_GENERAL: &[(usize, &str)] = &[
     (1, "read_all"),
 ];
 
+/// `--fat`: every history of this process draws fat values (about 1 KiB: 3 keys per leaf, hundreds of leaves)
+pub static FAT: std::sync::atomic::AtomicBool = std::sync::atomic::AtomicBool::new(false);
+
 pub fn weights_for(focus: &str) -> Vec<(usize, &'static str)> {
     match focus {
         "kv" => vec![(12, "commit"), (2, "overlay_new"), (2, "overlay_commit"), (1, "rollback"), (2, "reopen"), (1, "read_all")],
         "rollback" => vec![(8, "commit"), (3, "commit_nw"), (3, "overlay_new"), (3, "overlay_commit"), (3, "ov_chain_rb"), (8, "rollback"), (3, "reopen"), (2, "stale")],
-        "overlay" => vec![(3, "commit"), (10, "overlay_new"), (6, "overlay_commit"), (2, "ov_chain_rb"), (2, "overlay_drop"), (3, "bad_chain"), (2, "rollback"), (1, "reopen"), (1, "stale")],
+        "overlay" => vec![(3, "commit"), (10, "overlay_new"), (6, "overlay_commit"), (2, "ov_chain_rb"), (2, "ov_cluster_flip"), (2, "overlay_drop"), (3, "bad_chain"), (2, "rollback"), (1, "reopen"), (1, "stale")],
         "reject" => vec![(4, "commit"), (3, "overlay_new"), (3, "overlay_commit"), (8, "stale"), (4, "busy"), (4, "rollback"), (1, "reopen")],
         "reopen" => vec![(8, "commit"), (1, "commit_nw"), (3, "overlay_new"), (3, "overlay_commit"), (3, "rollback"), (8, "reopen"), (1, "stale")],
         _ => W_GENERAL.to_vec(),
